@@ -104,12 +104,37 @@ inductive In where
   | utxo (h i : Nat)
   deriving DecidableEq, Repr
 
-/-- what storage needs of a transaction body: its hash id, inputs, and for each output that
-    `UnspentOutputs` materialises (index = position) the list of its one-time keys -/
+/-- one output as finalization sees it: its type byte and its one-time keys -/
+structure OutSpec where
+  typ : Nat
+  keys : List Nat
+  deriving DecidableEq, Repr
+
+/-- what storage needs of a transaction body: its hash id, inputs and outputs (index = position) -/
 structure Tx where
   id : Nat
   ins : List In
-  outs : List (List Nat)
+  outs : List OutSpec
+  deriving DecidableEq, Repr
+
+/-- Which output types finalization materialises, and which have a side effect in `writeUTXO`:
+  * `materialized` — first case of `UnspentOutputs` (a UTXO is written, keys are relocked),
+  * `skipped` — second case (`continue`: no UTXO, nothing relocked),
+  * any other type makes `UnspentOutputs` panic,
+  * `sideTypes` — labels of the switch in `writeUTXO` (node / custodian / withdrawal records).
+  The lists come from the regenerated case tables. -/
+structure OutKinds where
+  materialized : List Nat
+  skipped : List Nat
+  sideTypes : List Nat
+
+/-- outcome of the node / custodian / withdrawal-claim side effect of `writeUTXO`.  Those state
+    machines are not part of this model (C27, C34): the harness reports how the real call went
+    (`err` = returned an error that is not a ghost-key error, `panic`). -/
+inductive Side where
+  | ok
+  | err
+  | panic
   deriving DecidableEq, Repr
 
 /-- the `config.Debug` assert of `WriteTransaction` for one input (false ⇒ panic) -/
@@ -136,37 +161,54 @@ def lockKeysFinal (exc : List Nat) (tx : Nat) : List Nat → Store → Option St
     | none => none
     | some s' => lockKeysFinal exc tx ks s'
 
-/-- `writeUTXO` over `UnspentOutputs()`: relock the keys, then `Set` a fresh UTXO (LockHash zero). -/
-def writeUTXOs (exc : List Nat) (tx : Nat) : Nat → List (List Nat) → Store → Option Store
-  | _, [], s => some s
-  | i, keys :: rest, s =>
-    match lockKeysFinal exc tx keys s with
-    | none => none
-    | some s' => writeUTXOs exc tx (i + 1) rest { s' with utxo := s'.utxo.set (tx, i) 0 }
+/-- the side effect of an output type after its UTXO is written: `next` is the rest of the
+    finalization, reached only when the side effect succeeded -/
+def sideGate (side : Side) (isSide : Bool) (next : Res) : Res :=
+  if isSide then
+    match side with
+    | .ok => next
+    | .err => .err
+    | .panic => .panic
+  else next
 
-/-- `finalizeTransaction`: no-op when FINALIZATION exists. -/
-def finalizeTransaction (exc : List Nat) (s : Store) (t : Tx) : Option Store :=
+/-- `writeUTXO` over `UnspentOutputs()`, output by output in index order: skipped types are not
+    in the list; for the others relock the keys (`lockGhostKey(txn, k, utxo.Hash, true)`), `Set`
+    a fresh UTXO (LockHash zero), then the side effect of the output type. -/
+def writeUTXOs (exc : List Nat) (kd : OutKinds) (side : Side) (tx : Nat) : Nat → List OutSpec → Store → Res
+  | _, [], s => .ok s
+  | i, o :: rest, s =>
+    if o.typ ∈ kd.skipped then writeUTXOs exc kd side tx (i + 1) rest s
+    else match lockKeysFinal exc tx o.keys s with
+      | none => .err
+      | some s' =>
+        sideGate side (decide (o.typ ∈ kd.sideTypes))
+          (writeUTXOs exc kd side tx (i + 1) rest { s' with utxo := s'.utxo.set (tx, i) 0 })
+
+/-- `finalizeTransaction`: no-op when FINALIZATION exists; `UnspentOutputs()` panics on an
+    output type it does not know before anything is relocked. -/
+def finalizeTransaction (exc : List Nat) (kd : OutKinds) (side : Side) (s : Store) (t : Tx) : Res :=
   match s.fin.get t.id with
-  | some _ => some s
-  | none => writeUTXOs exc t.id 0 t.outs { s with fin := s.fin.set t.id () }
+  | some _ => .ok s
+  | none =>
+    if t.outs.all (fun o => decide (o.typ ∈ kd.materialized) || decide (o.typ ∈ kd.skipped)) then
+      writeUTXOs exc kd side t.id 0 t.outs { s with fin := s.fin.set t.id () }
+    else .panic
 
 /-- loop of `writeSnapshot` -/
-def snapshotLoop (exc : List Nat) (node : Nat) : List Tx → Store → Option Store
-  | [], s => some s
+def snapshotLoop (exc : List Nat) (kd : OutKinds) (side : Side) (node : Nat) : List Tx → Store → Res
+  | [], s => .ok s
   | t :: ts, s =>
-    match finalizeTransaction exc s t with
-    | none => none
-    | some s' => snapshotLoop exc node ts { s' with unique := s'.unique.set (node, t.id) () }
+    match finalizeTransaction exc kd side s t with
+    | .ok s' => snapshotLoop exc kd side node ts { s' with unique := s'.unique.set (node, t.id) () }
+    | r => r
 
 /-- `WriteSnapshot`: debug asserts (round cache of the node exists; every listed body exists;
     no UNIQUE record of this node for it), then the loop, one update.  `nodes` = node ids that
     have a round cache. -/
-def writeSnapshot (exc nodes : List Nat) (s : Store) (node : Nat) (txs : List Tx) : Res :=
+def writeSnapshot (exc nodes : List Nat) (kd : OutKinds) (side : Side) (s : Store) (node : Nat) (txs : List Tx) : Res :=
   if node ∉ nodes then .panic
   else if txs.all (fun t => (s.tx.get t.id).isSome && (s.unique.get (node, t.id)).isNone) then
-    match snapshotLoop exc node txs s with
-    | none => .err
-    | some s' => .ok s'
+    snapshotLoop exc kd side node txs s
   else .panic
 
 /-! ### `validateOutputs` (common/validation.go): the in-transaction duplicate filter -/
@@ -228,13 +270,14 @@ inductive Op where
   | lockMint (b amount tx : Nat) (fork : Bool)
   | lockGhostKeys (keys : List Nat) (tx : Nat) (fork : Bool)
   | writeTx (t : Tx)
-  | snapshot (node : Nat) (txs : List Tx)
+  | snapshot (node : Nat) (txs : List Tx) (side : Side)
   deriving DecidableEq, Repr
 
 /-- static configuration: ghost-key fork exceptions and nodes with a round cache -/
 structure Cfg where
   exc : List Nat
   nodes : List Nat
+  kinds : OutKinds
 
 def exec (c : Cfg) (s : Store) : Op → Res
   | .lockUTXOs ins tx fork => lockUTXOs ins tx fork s
@@ -242,7 +285,7 @@ def exec (c : Cfg) (s : Store) : Op → Res
   | .lockMint b a tx fork => lockMint s b a tx fork
   | .lockGhostKeys keys tx fork => lockGhostKeys c.exc s keys tx fork
   | .writeTx t => writeTransaction s t
-  | .snapshot node txs => writeSnapshot c.exc c.nodes s node txs
+  | .snapshot node txs side => writeSnapshot c.exc c.nodes c.kinds side s node txs
 
 /-- a call that does not return `ok` leaves the database as it was -/
 def step (c : Cfg) (s : Store) (op : Op) : Store :=
@@ -259,6 +302,6 @@ def Op.isFork : Op → Bool
   | .lockMint _ _ _ f => f
   | .lockGhostKeys _ _ f => f
   | .writeTx _ => false
-  | .snapshot _ _ => false
+  | .snapshot _ _ _ => false
 
 end Mixin.Locks
